@@ -206,7 +206,7 @@ func snapshot(in *instRun) string {
 
 func (c11) Run(t *tape.Tape, cfg sim.Config) (res sim.Result) {
 	ctx := context.Background()
-	o := plan.Opts{MinFuncs: 3, MaxFuncs: 7, MaxAtoms: 6, Host: true, Traps: true, Exit: true, Grow: true, Table: true, Segments: true, WASI: true, HostTags: 4, GRef: true, Atomics: true}
+	o := plan.Opts{MinFuncs: 3, MaxFuncs: 7, MaxAtoms: 6, Host: true, Traps: true, Exit: true, Grow: true, Table: true, Segments: true, WASI: true, HostTags: 4, GRef: true, Atomics: true, Wide: true}
 	pa := plan.Generate(t, o)
 	pa.Name = "pa"
 	pb := plan.Generate(t, o)
